@@ -67,6 +67,21 @@ theorem stringify_rules (M : MCtx) (S : SCtx) (hr : M.repl = S.repl) (hp : M.pli
     walk M fuel depth key v = WR.map gvOf (serial S fuel depth key v) :=
   walk_eq M S hr hp hc hj fuel depth key v
 
+def smHas (k : Str) : SMs → Bool
+  | .nil => false
+  | .cons k' _ t => k' == k || smHas k t
+
+/-- `inherited_get`: the member a property list names is read with [[Get]] — an own property
+    (enumerable or not) shadows the prototype's, and a name the object does not own is looked up on the
+    prototype chain (`objP own nonEnum proto` is looked up in own ++ nonEnum ++ proto) -/
+theorem inherited_get (k : Str) (rest : SMs) : ∀ own : SMs,
+    SMs.get k (SMs.app own rest) = if smHas k own then SMs.get k own else SMs.get k rest
+  | .nil => by simp [SMs.app, smHas]
+  | .cons k' v t => by
+    by_cases h : k' = k
+    · simp [SMs.app, SMs.get, smHas, h]
+    · simp [SMs.app, SMs.get, smHas, h, inherited_get k rest t]
+
 /-- `tojson_objects_only`: whatever toJSON methods or getters sit on String.prototype,
     Number.prototype, Boolean.prototype or Object.prototype (`pj`), a PRIMITIVE value — undefined,
     null, boolean, number, string — is never asked for one (ES5 15.12.3 Str step 2: "If Type(value) is
